@@ -477,10 +477,10 @@ func c10R4(c *Ctx) {
 			return ok && ci.Common().StaticCallee() == del
 		}
 		se := c.fn("trzszTransfer.serverError")
-		hit, path := reachFromE(se.Blocks[0], 0, isReturn, isDel, contradicts([]assumption{{pred: okT, val: true}, {pred: isCallTo("(*trzsz.trzszError).isStopAndDelete"), val: true}}))
+		hit, path := reachFromE(se.Blocks[0], 0, isReturn, c.orWrapper("delete-created", isDel), contradicts([]assumption{{pred: okT, val: true}, {pred: isCallTo("(*trzsz.trzszError).isStopAndDelete"), val: true}}))
 		c.check(hit == nil, "delete-always/trzszTransfer.serverError", c.pos(se.Pos()), "a peer's stop-and-delete always reaches the delete", "the server can finish reporting a peer's stop-and-delete without deleting what it created (the half-written files stay)", c.pathStr(path)...)
 		ce := c.fn("trzszTransfer.clientError")
-		hit, path = reachFromE(ce.Blocks[0], 0, isReturn, isDel, contradicts([]assumption{
+		hit, path = reachFromE(ce.Blocks[0], 0, isReturn, c.orWrapper("delete-created", isDel), contradicts([]assumption{
 			{pred: func(v ssa.Value) bool {
 				call, _ := callOf(v)
 				return call != nil && isAtomicOnField(call, "stopAndDelete", "Load")
